@@ -272,6 +272,10 @@ for f in ('phase0', 'altair', 'bellatrix', 'capella', 'deneb'):
 for k in ('common:ProcessSlots', 'common:StateTransition', 'common:PostSlotTransition', 'altair:ProcessSyncAggregate', 'phase0:ProcessProposerSlashings', 'phase0:ProcessAttesterSlashings',
           'phase0:ProcessAttestations', 'altair:ProcessAttestations', 'deneb:ProcessAttestations', 'phase0:ProcessDeposits', 'capella:ProcessWithdrawals'):
     EXTRA.setdefault('eth2/beacon/' + k, []).append(_BALG)
+# phase0 pending attestations (view built from a raw record, append to a ztyp complex list): whatever may reach them lists the ghosts
+_PAG = '//@   assigns ghost(n_patt_view), ghost(last_patt_raw), ghost(n_clist_append), ghost(last_clist)'
+for k in ('phase0:ProcessAttestations', 'phase0:BeaconStateView.ProcessBlock', 'common:StateTransition', 'common:PostSlotTransition'):
+    EXTRA.setdefault('eth2/beacon/' + k, []).append(_PAG)
 # participation-flag writes (altair on): whatever may reach process_attestation lists the ghost
 _PFG = '//@   assigns ghost(n_set_pflag)'
 for f in ('altair', 'bellatrix', 'capella', 'deneb'):
